@@ -38,6 +38,7 @@ func lookup(name string) (interface{}, bool) {
 	k := nameCount[name]
 	nameCount[name] = k + 1
 	full := fmt.Sprintf("%s#%d", name, k)
+	consumed = append(consumed, full)
 	v, ok := replay.Inputs[full]
 	if !ok {
 		Diverged = append(Diverged, full)
@@ -162,7 +163,54 @@ func Concretize(x, lo, hi int) int { return x }
 
 // Replay runs the harness named in $GOSYM_REPLAY and reports the outcome on
 // stdout in a form the engine parses.
+// runCases replays a batch of cases (translator validation): for each case it
+// prints one line with the outcome and the input names the native run
+// consumed, in order.
+func runCases(t *testing.T, path string, harnesses map[string]func()) {
+	b, err := os.ReadFile(path)
+	if err != nil {
+		t.Fatal(err)
+	}
+	var cases []replayFile
+	if err := json.Unmarshal(b, &cases); err != nil {
+		t.Fatal(err)
+	}
+	for i, c := range cases {
+		replay = c
+		nameCount = map[string]int{}
+		Diverged = nil
+		consumed = nil
+		outcome := "completed"
+		func() {
+			defer func() {
+				switch x := recover().(type) {
+				case nil:
+				case AssertFailed:
+					outcome = "assert-failed:" + x.Label
+				case AssumeFailed:
+					outcome = "assume-failed"
+				default:
+					outcome = fmt.Sprintf("panic:%v", x)
+				}
+			}()
+			h := harnesses[c.Harness]
+			if h == nil {
+				outcome = "unknown-harness"
+				return
+			}
+			h()
+		}()
+		fmt.Printf("GOSYM-CASE %d outcome=%s diverged=%d consumed=%s\n", i, strings.ReplaceAll(outcome, " ", "_"), len(Diverged), strings.Join(consumed, ","))
+	}
+}
+
+var consumed []string
+
 func Replay(t *testing.T, harnesses map[string]func()) {
+	if cases := os.Getenv("GOSYM_REPLAY_CASES"); cases != "" {
+		runCases(t, cases, harnesses)
+		return
+	}
 	path := os.Getenv("GOSYM_REPLAY")
 	if path == "" {
 		t.Skip("GOSYM_REPLAY not set")
